@@ -96,6 +96,11 @@ def run(ctx):
             kinds = KIND_SETS[rng.randrange(len(KIND_SETS))]
             by_kind["+".join(kinds)] = by_kind.get("+".join(kinds), 0) + 1
             tprog, _ = layout.transform(prog, pkgpath, rng, kinds)
+            if rng.random() < 0.5:
+                # the declarations of the annotated package are spread over files that sort before / after each other
+                tprog = layout.scatter_decls(tprog, "m/d", "d/d.go", rng)
+                kinds = kinds + ("declfiles",)
+                by_kind["declfiles"] = by_kind.get("declfiles", 0) + 1
             tprog["id"] = prog["id"] + "_t"
             meta = {"module": module, "scenario": {k: v for k, v in sc.items() if k != "expect"}, "transform": list(kinds)}
             base_items.append((prog, e_inv, meta, pr))
@@ -177,7 +182,7 @@ def run(ctx):
         "distinct_nontrivial": nontrivial,
         "rule": "programs of the sequence spaces of the four checker specifications (2-3 declarations over 1-2 files; the specification's "
                 "expectation is per declaration, i.e. layout-free) are analysed as generated and after a random composition of: permuting the "
-                "top-level declarations, moving one to another file, inserting ordinary comments / blank lines, mis-formatting + gofmt, "
+                "top-level declarations, moving one to another file, spreading the declarations of the annotated package d over several files in a random order (declfiles), inserting ordinary comments / blank lines, mis-formatting + gofmt, "
                 "renaming locals; diagnostics are compared in layout-invariant keys (statement text, code) resp. (type, code) for the "
                 "once-per-file codes; distinct_nontrivial = runs with a non-empty expectation",
         "scenarios_emitted_by_tlc": total,
